@@ -355,6 +355,10 @@ func init() {
 		cfg := girc.Config{Server: "irc.example.org", Port: 6667, Nick: "me", User: "me", DisableSTSFallback: in["nofallback"] == "1", TLSConfig: &tls.Config{InsecureSkipVerify: true}}
 		cl := girc.New(cfg)
 		girc.VerifSetSTS(cl, port, dur, time.Duration(ago)*time.Second, -1)
+		if in["notrack"] == "1" {
+			// switching state tracking off afterwards does not make the client forget the transport policy it has learned
+			cl.DisableTracking()
+		}
 		kind := in["failkind"] // "fail" = dial error; "sniff" = handshake failure
 		d := &scriptDialer{peers: []*peerScript{newPeer(kind), newPeer("sniff")}}
 		r1 := connectWithTimeout(cl, d)
@@ -574,6 +578,12 @@ func runC10(c *Ctx) {
 				}
 			}
 		}
+	}
+	for _, kind := range []string{"fail", "sniff"} {
+		in := map[string]string{"port": "6697", "duration": "86400", "receivedago": "5", "failkind": kind, "nofallback": "0", "notrack": "1"}
+		c.run("stsdialfail", in)
+		r.Count(fmt.Sprint(in), true, "dialfail-notrack")
+		r.Traces++
 	}
 	for _, adv := range []string{"duration=500", "duration=500,port=1234", "port=1234", "", "duration=abc", "duration=0", "duration=500,preload", "duration=500,preload=true", "preload", "duration=-5"} {
 		c.run("ststls", map[string]string{"advert": adv})
